@@ -170,10 +170,17 @@ class SyncedList(SyncedCollection, MutableSequence):
                     # reference to this list, so it must never be rebound.
                     del self._data[len(data) :]
                 else:
-                    new_data = data[len(self) :]
+                    new_data = data[len(self._data) :]
                     if not _validate:
                         self._validate(new_data)
-                    self.extend(new_data)
+                    # Append directly: the public extend() takes the lock of
+                    # this collection, and an update is also how a plain read
+                    # refreshes the data, which must not take locks (a read of
+                    # a collection inside a write to another one would nest
+                    # two collection locks in an arbitrary order).
+                    self._data.extend(
+                        [self._from_base(data=value, parent=self) for value in new_data]
+                    )
         else:
             raise ValueError(
                 "Unsupported type: {}. The data must be a non-string sequence or None.".format(
